@@ -1,6 +1,6 @@
 #!/bin/sh
 # runs every quick (or $TIER) check on the current tree for the given seeds; prints one line per run
-cd /verif
+cd "$(dirname "$0")"
 TIER=${TIER:-quick}
 for seed in "$@"; do
   for i in 01 02 03 04 05 06 07 08 09 10 11 12 13 14 15 16 17 18 19 20; do
